@@ -9,6 +9,7 @@ import QlibcModel.Conf.AconfRender
 import QlibcModel.Conf.IniRound
 import QlibcModel.Conf.IniRefs
 import QlibcModel.Conf.AconfFlat
+import QlibcModel.Conf.AconfNested
 namespace Qlibc.Props.C20
 open Qlibc Qlibc.Conf Qlibc.Conf.Aconf
 
@@ -109,21 +110,118 @@ example : ∀ x ∈ [((Ini.Item.sect [110, 101, 116]), ({ a := [32], b := [32], 
     simp [Ini.ItemOk, Ini.LayOk, Ini.NoByte, Ini.Tight, Ini.LayWs, Str.isWs]
 
 /-
-  ac_accept_iff / ac_callbacks (FULL statement, not yet proved):
-    ∀ table flags defcb (d : AcDoc) layout,  d built from directives and arbitrarily nested, properly
-      closed sections (depth ≤ 255), every rendered line shorter than MAX_LINESIZE − 1  →
-      parse (renderAc d layout) =
-        if Conforms table flags d then (callbacks table d, count = directives + 2 · sections)
-        else (callbacks before the first offence, −1, line of the first offence)
-    where each callback carries otype, the enclosing section's id, the OR of the ids of all enclosing
-    sections (root included), the nesting level, the chain of enclosing directives, and the
-    tokenized/normalised argv; a section close callback carries the OPENING directive's data.
-  Proved below: the same statement for FLAT documents (directives, comments, blank lines at top
-  level; every table, both flags, with or without default handler; callbacks that do not refuse).
-  Missing: the induction over nested sections (recursive `_parse_inline` with the parent data and the
-  close-tag matching). Nesting, close callbacks, scopes inside sections, refusing callbacks and
-  chunked over-long lines are covered by the correspondence (checks/c20.py).
+  ac_accept_iff / ac_callbacks (FULL statement, proved below; lemmas in Conf/AconfNested*.lean):
+    ∀ table flags defcb cbFail (d : AcDoc),  d built from blank lines, comments, directives and
+      ARBITRARILY NESTED sections `<open> body </close>` whose close tag names the section (`DocOk`),
+      every layout (white space around the brackets, between the words, quoting styles, escapes),
+      every rendered line shorter than MAX_LINESIZE − 1  →
+      parse (renderAc d) =
+        (callbacks table d,  if Conforms table flags d then count = directives + 2 · sections
+                             else −1 with the line of the first offence)
+    where `callbacks` are all callbacks of `d` in file order if `d` conforms, else those before the
+    first offence (plus the refusing callback if the offence is a refusal). Each callback carries
+    otype, the enclosing section's id, the OR of the ids of all enclosing sections (root included),
+    the nesting level, the chain of enclosing directives, and the tokenized/normalised argv; the
+    close callback of a registered section carries the OPENING directive's data.
+  More general than announced: nesting depth is not a hypothesis (opening a section at level 255 is
+  an offence of the document, reported at that line), and refusing callbacks are included.
+  What the declarative side has to say because the C code does it (see `judgeLine`, `judgeClose`):
+    * a section whose name is NOT registered (accepted through the default handler or
+      QAC_IGNOREUNKNOWN) is entered with the id of the last registered section opened before on the
+      same level (0 if none) — `newsectionid` is only assigned for registered options;
+    * the close callback of such an unregistered section is the default handler called with the
+      CLOSE tag's own data (inner context, the close tag's words), not the opening directive's.
+  Not covered by a theorem: a last line without `\n`, over-long (chunked) lines, unclosed or
+  mismatched sections (error paths; in the correspondence, checks/c20.py).
 -/
+
+/-- ac_callbacks: for every option table, flags, default-handler setting, callback-refusal predicate
+    and every well-formed document with arbitrarily nested sections in every layout, `parse` makes
+    exactly the callbacks `callbacks cfg d` (= `walk`: file order, each with otype, section id,
+    accumulated section bits, level, parent chain and normalised argv; stopping at the first
+    offence) and returns `directives + 2·sections`, or −1 with the line of the first offence -/
+theorem ac_callbacks (cfg : Cfg) (d : AcDoc) (hok : DocOk cfg.ci d) :
+    (parse cfg (renderAc d)).map (fun x => (x.1, x.2.toF)) =
+      .ok (callbacks cfg d,
+        match firstOffenceLine cfg d with
+        | none => .count (d.directives + 2 * d.sections)
+        | some i => .errLine i) := by
+  rw [parse_nested cfg d hok, specNested_eq]
+  rfl
+
+/-- ac_accept_iff: the document is accepted — with all its callbacks and the count
+    `directives + 2·sections` — exactly when every line conforms to the declarations (`Conforms`:
+    scope, argument count, argument types, registered or tolerated name, no refusing callback, no
+    section opened at level 255); otherwise `parse` fails at the first offending line `i`, one of
+    the document's lines, after the callbacks made before it -/
+theorem ac_accept_iff (cfg : Cfg) (d : AcDoc) (hok : DocOk cfg.ci d) :
+    (Conforms cfg d Ctx.root 0 →
+      (parse cfg (renderAc d)).map (fun x => (x.1, x.2.toF)) =
+        .ok (callbacks cfg d, .count (d.directives + 2 * d.sections))) ∧
+    (¬ Conforms cfg d Ctx.root 0 →
+      ∃ i, firstOffenceLine cfg d = some i ∧ 1 ≤ i ∧ i ≤ d.lines ∧
+        (parse cfg (renderAc d)).map (fun x => (x.1, x.2.toF)) = .ok (callbacks cfg d, .errLine i)) := by
+  have hcb := ac_callbacks cfg d hok
+  have hc := walk_conforms cfg d Ctx.root 0
+  refine ⟨?_, ?_⟩
+  · intro h
+    have : firstOffenceLine cfg d = none := hc.mpr h
+    rw [hcb, this]
+  · intro h
+    cases ho : firstOffenceLine cfg d with
+    | none => exact absurd (hc.mp ho) h
+    | some i =>
+      have hb := walk_bound cfg d Ctx.root 0 i ho
+      exact ⟨i, rfl, hb.1, hb.2, by rw [hcb, ho]⟩
+
+/-- ac_accept_iff, as an equivalence on the return value: `parse` returns a count iff the document
+    conforms -/
+theorem ac_accept_iff_count (cfg : Cfg) (d : AcDoc) (hok : DocOk cfg.ci d) :
+    (∃ evs n, parse cfg (renderAc d) = .ok (evs, .count n)) ↔ Conforms cfg d Ctx.root 0 := by
+  obtain ⟨h1, h2⟩ := ac_accept_iff cfg d hok
+  constructor
+  · rintro ⟨evs, n, hp⟩
+    apply Classical.byContradiction
+    intro hn
+    obtain ⟨i, _, _, _, h⟩ := h2 hn
+    rw [hp] at h
+    simp [Except.map, Res.toF] at h
+  · intro hc
+    have h := h1 hc
+    cases hp : parse cfg (renderAc d) with
+    | error f => rw [hp] at h; simp [Except.map] at h
+    | ok x =>
+      obtain ⟨evs, r⟩ := x
+      rw [hp] at h
+      cases r with
+      | count n => exact ⟨evs, n, rfl⟩
+      | err l m => simp [Except.map, Res.toF] at h
+
+/-- non-vacuity: `<Host a>`, ` <Dir >`, `Port 80`, `</Dir>`, `</ Host>` — two levels of nesting -/
+def exDoc : AcDoc :=
+  .sect { args := [([], ⟨[72, 111, 115, 116], .bare, []⟩), ([32], ⟨[97], .bare, []⟩)] }
+    (.sect { lead := [32], args := [([], ⟨[68, 105, 114], .bare, []⟩)], post := [32] }
+      (.line (.dir [([], ⟨[80, 111, 114, 116], .bare, []⟩), ([32], ⟨[56, 48], .bare, []⟩)] []) .nil)
+      { args := [([], ⟨[68, 105, 114], .bare, []⟩)] } .nil)
+    { pre := [32], args := [([], ⟨[72, 111, 115, 116], .bare, []⟩)] } .nil
+
+example : DocOk false exDoc := by
+  simp [exDoc, DocOk, OpenOk, CloseOk, TagOk, ArgsOk, FLineOk, LineOk, WsRun, Admissible, Tag.texts, renderArg,
+    renderOpen, renderClose, renderArgs, isBlank, Str.isWs, nameEq, Generated.Conf.maxLineSize]
+
+/-- a table for it: `Host` (1 argument, section id 2, allowed at ROOT), `Dir` (no argument, id 4,
+    allowed in section 2), `Port` (1 INT argument, allowed in section 4) -/
+def exCfg : Cfg :=
+  { opts := [⟨[72, 111, 115, 116], 1, true, 2, 1⟩, ⟨[68, 105, 114], 0, true, 4, 2⟩,
+             ⟨[80, 111, 114, 116], 1 ||| Generated.Conf.qacA1Int, true, 0, 4⟩],
+    defcb := false, flags := 0, cbFail := fun _ => none }
+
+open Generated.Conf in
+example : Conforms exCfg exDoc Ctx.root 0 := by
+  simp [Conforms, exDoc, exCfg, judgeLine, judgeClose, Cfg.ci, Ctx.root, Ctx.enter, Ctx.data, Tag.texts, nameEq,
+    checkArgsSpec, argType, classify, qacSectionAll, qacSectionRoot, qacTakeAll, qacCaseInsensitive, otypeOpen,
+    otypeOption, qacA1Int, qacAAInt, qacAAFloat, qacAABool, maxTypeCheck, qacA1Float, qacA1Bool, stripMinus, isDigit,
+    List.dropWhile, List.takeWhile]
 
 /-- ac_accept_iff_partial + ac_callbacks_partial (flat documents): for every option table, flags,
     default-handler setting and every flat document in every layout (blanks/tabs between arguments,
